@@ -118,11 +118,11 @@ class Unit:
     def raw(self, text, label='prelude'):
         self.ops.append(('raw', text, label))
 
-    def extract(self, file, selector, fns=None, all_fns=False, annot=None, keep_attrs=(), rename=None, inside=None, only_header=False, default_props=()):
+    def extract(self, file, selector, fns=None, all_fns=False, annot=None, keep_attrs=(), rename=None, inside=None, only_header=False, default_props=(), others=None, skip=()):
         """fns: dict name -> A  (for impl / mod / trait: emit header + only these fns (+ assoc types));
         annot: A for a free fn / whole item;  inside: selector of an enclosing mod (e.g. 'mod foo')."""
         self.ops.append(('extract', dict(file=file, selector=selector, fns=fns, all_fns=all_fns, annot=annot, keep_attrs=keep_attrs,
-                                         rename=rename, inside=inside, default_props=tuple(default_props))))
+                                         rename=rename, inside=inside, default_props=tuple(default_props), others=others, skip=tuple(skip))))
 
     def assume_note(self, text):
         self.assumption_notes.append(text)
@@ -531,8 +531,13 @@ def generate(unit: Unit, canary=None) -> Generated:
                 seen = set()
                 for m in members:
                     take = False
-                    if m.kind == 'fn' and (m.name in want or spec['all_fns']):
+                    gated = any(_gated_feature(src, a0, a1) for (a0, a1) in m.attrs)
+                    if m.kind == 'fn' and m.name in spec['skip']:
+                        take = False
+                    elif m.kind == 'fn' and (m.name in want or spec['all_fns']):
                         take = True
+                    elif m.kind == 'fn' and spec['others'] == 'stub' and not gated:
+                        take = True   # ambient member: verbatim signature, body dropped, no contract (callers learn nothing about it)
                     elif m.kind in ('type', 'const') and it.kind == 'impl' and ' for ' in (' ' + it.header + ' '):
                         take = True  # associated types/consts of trait impls
                     if not take:
@@ -540,6 +545,8 @@ def generate(unit: Unit, canary=None) -> Generated:
                     mid = f'{iid}:{m.name}' + (f'~{sum(1 for x in seen if x == m.name)}' if m.name in seen else '')
                     seen.add(m.name)
                     a = want.get(m.name) if m.kind == 'fn' else None
+                    if a is None and m.kind == 'fn' and spec['others'] == 'stub' and not spec['all_fns']:
+                        a = A(stub=True)
                     if a is None:
                         a = A(props=spec['default_props'])
                     fnq = f'{_short_hdr(it)}::{m.name}' if m.kind == 'fn' else None
